@@ -87,7 +87,27 @@ func checkC03(w *World, r *Report) {
 					okArg := false
 					if len(d.Call.Args) > 0 {
 						if al, ok := d.Call.Args[len(d.Call.Args)-1].(*ssa.Alloc); ok && al.Parent() == runner {
+							// the variable the handler fills in is the runner's error result: every return
+							// (also the one taken after a recovered panic) reads it
 							okArg = true
+							nret := 0
+							for _, rb := range runner.Blocks {
+								if len(rb.Instrs) == 0 {
+									continue
+								}
+								ret, isRet := rb.Instrs[len(rb.Instrs)-1].(*ssa.Return)
+								if !isRet || len(ret.Results) == 0 {
+									continue
+								}
+								nret++
+								ld, isLd := ret.Results[len(ret.Results)-1].(*ssa.UnOp)
+								if !isLd || ld.X != ssa.Value(al) {
+									okArg = false
+								}
+							}
+							if nret == 0 || runner.Recover == nil {
+								okArg = false
+							}
 						}
 					}
 					r.check(okArg, "C03.recover", runner, "recover handler target", d.Pos(), "the runner's own error result", "the recover handler does not write the runner's error result")
@@ -425,16 +445,28 @@ func ruleObject(m *evalModel, r *Report, e *Engine, reg map[*ssa.BasicBlock]bool
 		r.undecided("C03.object", nil, "LispError.ErrorValue", token.NoPos, "method no longer resolves")
 	}
 	if fn := le("(LispError).Unwrap"); fn != nil {
-		okU := false
+		okU, allU := false, true
 		for _, rt := range m.returns(fn) {
 			v := rt[1].(ssa.Value)
+			if isNilConst(v) {
+				continue
+			}
+			isStored := false
 			if ex, ok := v.(*ssa.Extract); ok {
 				if ta, ok := ex.Tuple.(*ssa.TypeAssert); ok && strings.HasSuffix(describeVal(e, ta.X, 0), ".err") {
-					okU = true
+					isStored = true
 				}
 			}
+			if ta, ok := v.(*ssa.TypeAssert); ok && strings.HasSuffix(describeVal(e, ta.X, 0), ".err") {
+				isStored = true
+			}
+			if isStored {
+				okU = true
+			} else {
+				allU = false
+			}
 		}
-		r.check(okU, "C03.object", fn, "Unwrap", fn.Pos(), "returns the stored object when it is an error", "Unwrap does not expose the stored error: errors.Is cannot reach the original")
+		r.check(okU && allU, "C03.object", fn, "Unwrap", fn.Pos(), "every return is the stored object (when it is an error) or nil", "Unwrap returns something other than the stored error on some path (a link of the chain is skipped): errors.Is / errors.As no longer see the error that was returned or thrown")
 	} else {
 		r.undecided("C03.object", nil, "LispError.Unwrap", token.NoPos, "method no longer resolves")
 	}
@@ -914,6 +946,21 @@ func checkC12(w *World, r *Report) {
 	r.rule("C12.unevaluated", "the argument slice handed to the macro function in the expansion loop is a projection (elements from index 1) of the call form: operands are passed unevaluated")
 	r.rule("C12.caller-scope", "the expansion replaces the form before the dispatch, in the caller's scope: macroexpand is called with the current scope, passes that scope to the macro test and to the lookup, and the scope is not changed between expansion and dispatch")
 	r.rule("C12.fixpoint", "macroexpand loops while the macro test holds on the updated form and returns that form; the macroexpand and quasiquoteexpand special forms return expansions unevaluated")
+	r.rule("C12.macro-lookup", "whether the head of a form is a macro is decided by the innermost binding of its name: Find/Get consult the receiver's own table first and ascend only when the name is not bound there (shared with C01.lookup-order), so a macro bound as a parameter or let variable is found like any other")
+	{
+		before, beforeF := len(r.Obl), len(r.Floors)
+		ruleLookupOrder(w, r, e)
+		for i := before; i < len(r.Obl); i++ {
+			if r.Obl[i].Rule == "C01.lookup-order" {
+				r.Obl[i].Rule = "C12.macro-lookup"
+			}
+		}
+		for i := beforeF; i < len(r.Floors); i++ {
+			if r.Floors[i].Rule == "C01.lookup-order" {
+				r.Floors[i].Rule = "C12.macro-lookup"
+			}
+		}
+	}
 	r.rule("C12.copy", "a function value rebuilt field by field from an existing one (with-meta and the like) accounts for every field of MalFunc, so the macro flag, the scope builder and the evaluator travel with the copy")
 	partialCopyRule(w, r, "C12.copy", "MalFunc")
 	r.rule("C12.flag", "defmacro binds the result of SetMacro (a value-receiver method setting IsMacro on its copy) applied to the evaluated function; fn builds IsMacro:false; the macro test is true only through GetMacro; the application region never looks at the macro flag")
@@ -1032,9 +1079,9 @@ func checkC12(w *World, r *Report) {
 		r.check(okNoEval && !m.reachesHeader(reg), "C12.fixpoint", m.EVAL, name+" returns its result unevaluated", token.NoPos, "no evaluating call, does not continue the loop", name+" evaluates its result")
 	}
 	// flag
-	if reg, ok := m.regions["defmacro"]; ok {
+	if _, ok := m.regions["defmacro"]; ok {
 		okSet := false
-		for b := range reg {
+		for _, b := range m.regionBlocks("defmacro") {
 			for _, in := range b.Instrs {
 				ci, ok := in.(ssa.CallInstruction)
 				if !ok || !ci.Common().IsInvoke() || ci.Common().Method.Name() != "Set" {
@@ -1176,6 +1223,37 @@ func checkC12(w *World, r *Report) {
 
 func ruleQQ(m *evalModel, r *Report, e *Engine) {
 	w := m.w
+	// the element loop always hands back the list it built (cons / concat forms), never a piece of the template
+	for _, rt := range errorReturns(m.qqLoop) {
+		ret := rt[0].(*ssa.Return)
+		v, _ := rt[1].(ssa.Value)
+		if v == nil || isNilConst(v) {
+			continue
+		}
+		built := true
+		var walk func(x ssa.Value, depth int)
+		seenV := map[ssa.Value]bool{}
+		walk = func(x ssa.Value, depth int) {
+			if depth > 8 || seenV[x] {
+				return
+			}
+			seenV[x] = true
+			switch y := unboxed(x).(type) {
+			case *ssa.Phi:
+				for _, op := range y.Edges {
+					walk(op, depth+1)
+				}
+			case *ssa.Call:
+				if c := y.Call.StaticCallee(); c == nil || c.Name() != "NewList" {
+					built = false
+				}
+			default:
+				built = false
+			}
+		}
+		walk(v, 0)
+		r.check(built, "C12.qq-dispatch", m.qqLoop, "value returned by the element loop", ret.Pos(), "the list form it built with NewList (cons / concat)", "the element loop hands back a piece of the template itself ("+describeVal(e, v, 0)+"): a lone (splice-unquote x) yields x as it is - a vector, a non-sequence or a list with metadata - instead of a fresh list")
+	}
 	// names generated
 	generated := map[string]token.Pos{}
 	tested := map[string]token.Pos{}
@@ -1409,6 +1487,13 @@ func (w *World) registeredNames() map[string]string {
 				case callB:
 					if k, ok := c.Call.Args[1].(*ssa.Const); ok && k.Value != nil {
 						out[constant.StringVal(k.Value)] = w.fnName(fn)
+					} else {
+						// a registration table walked by a loop
+						for _, row := range tableRows(c.Call.Args[1]) {
+							if s, ok := constString(row[0]); ok {
+								out[s] = w.fnName(fn)
+							}
+						}
 					}
 				}
 				// direct env.Set(Symbol{Val: "eval"}, Func{...})
